@@ -6,9 +6,12 @@ package cluster
 // linearisation against the contract: a Lock can only be granted while nobody holds, i.e. the
 // interval [return of Lock, invocation of Unlock] of two goroutines never overlap.
 //
-//   TestVerifC18Mutex  - scenarios "A" (one handle object per member, shared by its goroutines),
-//                        "B" (two handle objects of one member for the same name), each followed
-//                        by probes: at quiescence every handle must be lockable again.
+//   TestVerifC18Mutex  - scenarios "A" (one handle object per member, shared by its goroutines; in half
+//                        of them one member's handle has a short time-out and the others hold long),
+//                        "H" (hand-off storms: back-to-back Lock/Unlock by several goroutines per
+//                        member with randomly delayed etcd requests), "B" (two handle objects of one
+//                        member for the same name), each followed by probes: at quiescence every
+//                        handle must be lockable again.
 
 import (
 	"context"
